@@ -32,8 +32,8 @@ func gen(t *rapid.T) Case {
 	cfg := pat.GenCfg(t, false)
 	cfg.Alt = true
 	c := Case{Icpt: cfg.IcptName, Trace: rapid.IntRange(0, 5).Draw(t, "trace") == 0}
-	c.Pool = pat.GenPool(t, cfg, rapid.IntRange(6, 14).Draw(t, "npool"))
-	c.Ops = life.GenOps(t, cfg, c.Pool, rapid.IntRange(1, 25).Draw(t, "nops"),
+	c.Pool = pat.GenPool(t, cfg, rapid.IntRange(6, rig.Up(14)).Draw(t, "npool"))
+	c.Ops = life.GenOps(t, cfg, c.Pool, rapid.IntRange(1, rig.Up(25)).Draw(t, "nops"),
 		life.GenOpts{Facades: false, Hostile: true, NewMethods: true, Trace: c.Trace})
 	var parsed []*pat.Pattern
 	for _, p := range c.Pool {
